@@ -258,6 +258,10 @@ func (evkg EvaluationKeyGenProtocol) GenEvaluationKey(share EvaluationKeyGenShar
 		return fmt.Errorf("cannot GenEvaluationKey: share LevelP != evk LevelP")
 	}
 
+	if share.BaseTwoDecomposition != evk.BaseTwoDecomposition {
+		return fmt.Errorf("cannot GenEvaluationKey: share BaseTwoDecomposition != evk BaseTwoDecomposition")
+	}
+
 	m := share.Value
 	p := crp.Value
 
@@ -272,6 +276,14 @@ func (evkg EvaluationKeyGenProtocol) GenEvaluationKey(share EvaluationKeyGenShar
 			return fmt.Errorf("cannot GenEvaluationKey: share, crp and evk BaseTwoDecompositionVectorSize do not match")
 		}
 
+		for j := range p[i] {
+			if p[i][j].LevelQ() != share.LevelQ() || p[i][j].LevelP() != share.LevelP() {
+				return fmt.Errorf("cannot GenEvaluationKey: crp LevelQ or LevelP != share LevelQ or LevelP")
+			}
+		}
+	}
+
+	for i := range m {
 		for j := range m[i] {
 			evk.Value[i][j][0].Copy(m[i][j][0])
 			evk.Value[i][j][1].Copy(p[i][j])
